@@ -7,10 +7,10 @@ Definition status_code (s : status) : Z :=
   match s with Inactive => 0 | Initializing => 1 | Alive => 2 | Errored => 3 | Killed => 4 end%Z.
 Definition paction_code (a : paction) : Z :=
   match a with ABoundary => 0 | ARange => 1 | ADiscrete => 2 | ATrackingCut => 3
-             | AFailure => 4 | AOther => 5 | AModel => 6 end%Z.
+             | AFailure => 4 | AOther => 5 | AModel => 6 | ANone => (-1) end%Z.
 Definition paction_of (c : Z) : paction :=
   match c with 0 => ABoundary | 1 => ARange | 2 => ADiscrete | 3 => ATrackingCut
-             | 4 => AFailure | 6 => AModel | _ => AOther end%Z.
+             | 4 => AFailure | 6 => AModel | (-1) => ANone | _ => AOther end%Z.
 Definition iaction_of (c : Z) : iaction :=
   match c with 0 => IScattered | 1 => IAbsorbed | 2 => IUnchanged | _ => IFailed end%Z.
 
